@@ -251,6 +251,7 @@ pub fn replay_file(path: &str) -> i32 {
         "stream" => crate::stream::replay(&v),
         "alloc" => crate::alloc::replay(&v),
         "sched" => crate::sched::replay(&v),
+        "autoalloc" => crate::autoalloc::replay(&v),
         other => {
             eprintln!("replay for engine {other} is handled by its module");
             2
